@@ -178,7 +178,7 @@ class CallTracker(object):
 
   # -- oracles -------------------------------------------------------------
   def check_exactly_once(self, prop='C01', stall=False, check_deadline=True, allow_types=None,
-                         open_known_late=False):
+                         open_known_late=False, clock_steps=False):
     from scales.message import TimeoutError as ScalesTimeout
     from scales.dispatch import InternalError
     for c in self.order:
@@ -223,7 +223,7 @@ class CallTracker(object):
                         c.id, c.t - EPOCH, T, when - EPOCH, when - (c.t + T),
                         type(obj).__name__ if kind == 'exc' else 'a value'),
                       {'before_open': c.before_open})
-      if kind == 'exc' and isinstance(obj, ScalesTimeout) and when < c.t + T - 1e-6:
+      if kind == 'exc' and isinstance(obj, ScalesTimeout) and when < c.t + T - 1e-6 and not clock_steps:
         REC.violation(prop, 'timeout_early',
                       'call %s issued at %.6f timeout %s got TimeoutError at %.6f (%.6f s early)' % (
                         c.id, c.t - EPOCH, T, when - EPOCH, c.t + T - when),
